@@ -186,7 +186,8 @@ class Cleaner(object):
             # Store it
             try:
                 if raw_data:
-                    if content:
+                    # the lines keep their line feed here: a file of blank lines only is empty, too
+                    if content and any(line.rstrip("\r\n") for line in content):
                         with open(_file, 'wb') as fh:
                             for line in content:
                                 fh.write(line.encode('utf-8') if six.PY3 else line)
